@@ -17,6 +17,8 @@ global size_of usize == 8;
 pub assume_specification [str::trim] (s: &str) -> &str;
 pub assume_specification<T>[ <[T]>::reverse ](s: &mut [T])
     ensures final(s)@ == old(s)@.reverse();
+pub assume_specification<T>[ Option::<Option<T>>::flatten ](o: Option<Option<T>>) -> (r: Option<T>)
+    ensures r == (match o { Some(Some(v)) => Some(v), _ => None });
 pub mod io {
     use vstd::prelude::*;
     verus! {
@@ -58,7 +60,7 @@ impl Event {
 //@@ item crates/ripd/src/continuity_stream_cache.rs struct TailScan
 //@@ item crates/ripd/src/continuity_stream_cache.rs struct SidecarBackwardScan
 //@@ item crates/ripd/src/continuity_stream_cache.rs enum ParseMode
-pub struct SidecarEventHeader { pub seq: u64, pub filler: u8 }
+//@@ item crates/ripd/src/continuity_stream_cache.rs struct SidecarEventHeader
 #[verifier::external_body] pub fn vfirst_header(v: Vec<SidecarEventHeader>) -> Option<SidecarEventHeader> { unimplemented!() }
 //@@ item crates/ripd/src/continuity_stream_cache.rs const REVERSE_SCAN_CHUNK_BYTES
 pub type Path = PathBuf;
@@ -141,6 +143,42 @@ pub open spec fn accounted(ls: Seq<io::Result<String>>, es: Seq<CompactionCheckp
     proof { assert(__s0@.take(__s0@.len() as int) =~= __s0@); }
 //@@ end
 
+
+// ---- the hierarchy walk over the checkpoint index (what unit c08_ckpt assumes of the cache: at most the requested levels) ----------------
+#[verifier::external_body] pub fn load_compaction_checkpoint_index_v1(path: &PathBuf) -> io::Result<Option<Vec<CompactionCheckpointIndexEntryV1>>> { unimplemented!() }      // = load_index_v1 (proved above)
+#[verifier::external_body] pub fn rebuild_compaction_checkpoint_index_from_sidecar_v1(sidecar: &PathBuf, index: &PathBuf, id: &str) -> io::Result<()> { unimplemented!() }
+#[verifier::external_body] pub fn vretain_to_seq(v: &mut Vec<CompactionCheckpointIndexEntryV1>, max_to_seq: u64) { unimplemented!() }       // entries.retain(|e| e.to_seq <= max)
+#[verifier::external_body] pub fn vretain_kind(v: &mut Vec<CompactionCheckpointIndexEntryV1>, kind: &str) { unimplemented!() }               // entries.retain(|e| e.summary_kind == kind)
+#[verifier::external_body] pub fn vsort_entries(v: &mut Vec<CompactionCheckpointIndexEntryV1>) ensures final(v)@.len() == old(v)@.len() { unimplemented!() }
+pub struct LatestEntryByToSeq { pub filler: u8 }
+impl LatestEntryByToSeq {
+    #[verifier::external_body] pub fn new() -> LatestEntryByToSeq { unimplemented!() }
+    #[verifier::external_body] pub fn existing_seq(&self, to_seq: &u64) -> Option<u64> { unimplemented!() }
+    #[verifier::external_body] pub fn insert(&mut self, to_seq: u64, e: CompactionCheckpointIndexEntryV1) { unimplemented!() }
+    #[verifier::external_body] pub fn into_entries(self) -> Vec<CompactionCheckpointIndexEntryV1> { unimplemented!() }
+}
+impl Clone for CompactionCheckpointIndexEntryV1 { #[verifier::external_body] fn clone(&self) -> (r: Self) ensures r == *self { unimplemented!() } }
+pub assume_specification<'a, T, F: FnMut(&'a T) -> std::cmp::Ordering>[ <[T]>::binary_search_by ](s: &'a [T], f: F) -> (r: Result<usize, usize>)
+    requires forall|x: &'a T| #[trigger] f.requires((x,));
+
+// ---- the seekable window read (window_recent_messages_v1_from_cut_v1): both of its loops end ---------------------------------------------
+//@@ item crates/ripd/src/continuity_stream_cache.rs struct ContinuityWindow dropderive=Clone
+pub struct SeqSeekIndexEntryV1 { pub seq: u64, pub offset: u64 }
+#[verifier::external_body] pub fn best_offset_for_seq(entries: &Vec<SeqSeekIndexEntryV1>, target_seq: u64) -> u64 { unimplemented!() }      // proved in unit c04_index
+pub enum SeekFrom { Start(u64) }
+impl File { #[verifier::external_body] pub fn seek(&mut self, s: SeekFrom) -> io::Result<u64> { unimplemented!() } }
+pub uninterp spec fn bytes_left(r: BufReader) -> nat;      // how much of the (finite) file the reader has not handed out yet
+impl BufReader { #[verifier::external_body] pub fn read_until(&mut self, b: u8, buf: &mut Vec<u8>) -> (r: io::Result<usize>)
+    ensures r matches Ok(n) ==> n <= bytes_left(*old(self)) && bytes_left(*final(self)) == bytes_left(*old(self)) - n,
+{ unimplemented!() } }
+pub struct Metadata { pub len_: u64 }
+impl Metadata { pub fn len(&self) -> (r: u64) ensures r == self.len_ { self.len_ } }
+impl File { #[verifier::external_body] pub fn metadata(&self) -> io::Result<Metadata> { unimplemented!() } }
+#[verifier::external_body] pub fn strip_line_terminator(buf: &mut Vec<u8>) -> (r: &[u8]) { unimplemented!() }      // proved in unit c04_scan
+pub mod vjson2 { use super::*; verus! {
+    #[verifier::external_body] pub fn from_slice<T>(b: &[u8]) -> Result<T, vjson::Error> { unimplemented!() }
+} }
+
 pub struct ContinuityStreamCache { pub filler: u8 }
 impl ContinuityStreamCache {
     #[verifier::external_body] pub fn path_for(&self, id: &str) -> PathBuf { unimplemented!() }
@@ -182,6 +220,70 @@ impl ContinuityStreamCache {
         decreases __s0.len() - __i0
     //@@ loopbody 0
         broadcast use axiom_refstr_eq_refstr, axiom_refstr_eq_refstr_obeys;
+    //@@ end
+
+    #[verifier::external_body] pub fn ensure_compaction_checkpoints_index_best_effort_v1(&self, id: &str) -> io::Result<Option<PathBuf>> { unimplemented!() }
+
+    //@@ fn crates/ripd/src/continuity_stream_cache.rs ContinuityStreamCache::hierarchical_compaction_checkpoints_before_or_at_seq_v1 r7v=0
+    //@@ rewrite entries.retain(|entry| entry.to_seq <= max_to_seq); ==>> vretain_to_seq(&mut entries, max_to_seq);
+    //@@ rewrite entries.retain(|entry| entry.summary_kind == kind); ==>> vretain_kind(&mut entries, kind);
+    //@@ rewrite HashMap<u64, CompactionCheckpointIndexEntryV1> = HashMap::new() ==>> LatestEntryByToSeq = LatestEntryByToSeq::new()
+    //@@ rewrite match latest_by_to_seq.get(&entry.to_seq) { Some(existing) if existing.seq >= entry.seq => {} ==>> match latest_by_to_seq.existing_seq(&entry.to_seq) { Some(existing_seq) if existing_seq >= entry.seq => {}
+    //@@ rewrite latest_by_to_seq.into_values().collect() ==>> latest_by_to_seq.into_entries()
+    //@@ rewrite unique.sort_by(|a, b| a.to_seq.cmp(&b.to_seq).then(a.seq.cmp(&b.seq))); ==>> vsort_entries(&mut unique);
+    //@@ rewrite selected.sort_by(|a, b| a.to_seq.cmp(&b.to_seq)); ==>> vsort_entries(&mut selected);
+    //@@ sig
+        ensures
+            ret matches Ok(Some(v)) ==> v@.len() <= max_levels,      // [checkpoint_hierarchy.at_most_the_requested_levels]
+    //@@ loop 0
+        invariant true,
+        decreases __v0@.len()
+    //@@ loop 1
+        invariant selected@.len() <= max_levels,
+        decreases max_levels - selected@.len()      // [checkpoint_hierarchy.walk_terminates]
+    //@@ end
+
+    #[verifier::external_body] pub fn ensure_seq_index_v1(&self, id: &str, sidecar_path: &Path) -> io::Result<Vec<SeqSeekIndexEntryV1>> { unimplemented!() }
+
+    //@@ fn crates/ripd/src/continuity_stream_cache.rs ContinuityStreamCache::window_recent_messages_v1_from_cut_v1 r7=1
+    //@@ alias serde_json::from_slice vjson2::from_slice
+    //@@ sig
+        ensures
+            ret matches Ok(w) ==> w.from_seq == from_seq,
+    //@@ loop 0
+        invariant 256 * 1024 <= backscan_bytes <= 256 * 1024 * 1024,
+        decreases 256 * 1024 * 1024 - backscan_bytes      // [window.back_scan_for_the_oldest_needed_message_terminates]
+    //@@ loop 1
+        invariant __i1 <= __s1.len(),
+        decreases __s1.len() - __i1
+    //@@ loopbody 1
+        broadcast use group_string_eq;
+    //@@ loop 2
+        invariant true,
+        decreases (if cur_offset < boundary_pos { boundary_pos - cur_offset } else { 0 })      // [window.forward_read_up_to_the_boundary_terminates]
+    //@@ loopbody 2
+        broadcast use group_string_eq;
+    //@@ end
+
+    #[verifier::external_body] pub fn ensure_messages_runs_sidecar_best_effort_v1(&self, id: &str) -> io::Result<Option<PathBuf>> { unimplemented!() }
+    #[verifier::external_body] pub fn lookup_message_anchor_messages_runs_v1(&self, id: &str, sidecar_path: &Path, message_id: &str) -> io::Result<Option<(u64, u64)>> { unimplemented!() }
+    #[verifier::external_body] pub fn try_read_last_seq(&self, id: &str) -> io::Result<Option<u64>> { unimplemented!() }
+    #[verifier::external_body] pub fn try_read_last_seq_messages_runs_v1(&self, id: &str) -> io::Result<Option<u64>> { unimplemented!() }
+
+    //@@ fn crates/ripd/src/continuity_stream_cache.rs ContinuityStreamCache::window_recent_messages_v1_from_message_id_messages_runs_v1 r7=2
+    //@@ alias serde_json::from_slice vjson2::from_slice
+    //@@ rewrite .ok() .flatten() .or_else(|| { self.try_read_last_seq_messages_runs_v1(continuity_id) .ok() .flatten() }) .unwrap_or(anchor_seq); ==>> .ok().flatten(); let head_seq = match head_seq { Some(v) => v, None => match self.try_read_last_seq_messages_runs_v1(continuity_id).ok().flatten() { Some(v) => v, None => anchor_seq } };
+    //@@ rewrite selected_rev.reverse(); return Ok(Some(ContinuityWindow { ==>> proof { assert(found_messages >= message_limit || scan.complete); }      // [mr_window.a_window_is_served_only_if_it_holds_the_limit_or_reaches_the_start_of_the_sidecar]\n selected_rev.reverse(); return Ok(Some(ContinuityWindow {
+    //@@ sig
+    //@@ loop 0
+        invariant true,
+        decreases bytes_left(reader)      // [mr_window.search_for_the_next_message_ends_with_the_file]
+    //@@ loop 1
+        invariant 256 * 1024 <= backscan_bytes <= 64 * 1024 * 1024,
+        decreases 64 * 1024 * 1024 - backscan_bytes      // [mr_window.back_scan_terminates]
+    //@@ loop 2
+        invariant __i2 <= __s2.len(), found_messages <= __i2,
+        decreases __s2.len() - __i2
     //@@ end
 
     //@@ fn crates/ripd/src/continuity_stream_cache.rs ContinuityStreamCache::try_read_last_seq_for_sidecar_path
